@@ -29,6 +29,7 @@ type SpecEnv struct {
 	inOld      bool
 	clauseSrc  string
 	loop       *loopInfo
+	idxState   *State
 }
 
 // rangeIndex finds the hidden index cell of a `for … range` loop (robust against renaming of the
@@ -367,9 +368,10 @@ func (fx *FuncExec) evalIdent(env *SpecEnv, name string) Val {
 		if a == nil {
 			fx.specFail(env, "$idx: loop %s is not a range loop over a slice", env.loop.name)
 		}
+		// $idx always denotes the index of the iteration the clause talks about, also inside old()
 		st := env.cur
-		if env.inOld && env.oldCells != nil {
-			st = env.oldCells
+		if env.idxState != nil {
+			st = env.idxState
 		}
 		if cv, ok := st.cells[a]; ok {
 			return cv
